@@ -227,12 +227,12 @@ fn op_name(b: u8) -> &'static str {
 }
 
 /// The scratch concrete interpreter along `path`; returns the step records for Evm.tla.
-fn scratch_run(code: &[u8], path: &[u32]) -> (Vec<J>, Vec<U256>, Vec<&'static str>) {
+fn scratch_run(code: &[u8], path: &[u32]) -> (Vec<J>, Vec<U256>, Vec<(usize, &'static str)>) {
     let mut stack: Vec<U256> = Vec::new();
     let mut mem: HashMap<U256, U256> = HashMap::new();
     let mut writes: Vec<(U256, U256)> = Vec::new();
     let mut steps = Vec::new();
-    let mut tags: Vec<&'static str> = Vec::new();
+    let mut tags: Vec<(usize, &'static str)> = Vec::new();
     for (i, pc) in path.iter().enumerate() {
         let pc = *pc as usize;
         let b = code[pc];
@@ -269,7 +269,7 @@ fn scratch_run(code: &[u8], path: &[u32]) -> (Vec<J>, Vec<U256>, Vec<&'static st
                 let (r, q) = wide_mod(a, bb, n, b == 0x09);
                 let narrow = if n == U256::ZERO { U256::ZERO } else if b == 0x09 { a.wrapping_mul(bb) % n } else { a.wrapping_add(bb) % n };
                 if narrow != r {
-                    tags.push("addmod-overflow");
+                    tags.push((pc, "addmod-overflow"));
                 }
                 stack.truncate(stack.len() - 3);
                 stack.push(r);
@@ -280,13 +280,14 @@ fn scratch_run(code: &[u8], path: &[u32]) -> (Vec<J>, Vec<U256>, Vec<&'static st
                 let (a, x) = (at(&stack, 0), at(&stack, 1));
                 stack.truncate(stack.len() - 2);
                 stack.push(sign_extend(a, x));
+                tags.push((pc, "signextend"));
             }
             0x1a => {
                 let (a, x) = (at(&stack, 0), at(&stack, 1));
                 stack.truncate(stack.len() - 2);
                 stack.push(byte_of(a, x));
                 if a >= (U256::ONE << 253) {
-                    tags.push("byte-huge-offset");
+                    tags.push((pc, "byte-huge-offset"));
                 }
             }
             0x58 => stack.push(U256::from(pc as u64)),
@@ -372,7 +373,8 @@ impl Interner {
                 (vec![], r.map(|(x, _)| x))
             }
         };
-        self.nodes.push(json!({"op": op, "w": w, "kids": kids, "claim": claim.map_or(vec![], le), "hint": le(hint)}));
+        self.nodes.push(json!({"op": op, "w": w, "kids": kids, "claim": claim.map_or(vec![], le), "hint": le(hint),
+                               "ip": v.instruction_pointer()}));
         self.vals.push(claim);
         let id = self.nodes.len();
         self.ids.insert(key, id);
@@ -421,8 +423,13 @@ pub fn constant_program(rng: &mut StdRng) -> (Vec<u8>, bool) {
     let key_forms: Vec<bool> = (0..4).map(|_| rng.gen_bool(0.25)).collect();
     if rng.gen_bool(0.3) {
         let slot = rng.gen_range(0..4u8);
+        let mut last = boundary_const(rng);
         for _ in 0..rng.gen_range(2..4) {
-            items.push(Item::Push(boundary_const(rng)));
+            // now and then the same constant again (equal values pushed at different places)
+            if rng.gen_bool(0.6) {
+                last = boundary_const(rng);
+            }
+            items.push(Item::Push(last.clone()));
             if key_forms[slot as usize] {
                 items.extend([Item::Push(vec![3]), Item::Push(vec![slot + 3]), Item::Op(0x03)]);
             } else {
@@ -465,6 +472,11 @@ pub fn constant_program(rng: &mut StdRng) -> (Vec<u8>, bool) {
                         items.push(Item::Op(0x90));
                         items.push(Item::Op(0x0a));
                         // PUSH e; SWAP1; EXP  computes top ** e ... net effect: depth unchanged
+                    } else if (0x1b..=0x1d).contains(&op) && rng.gen_bool(0.4) {
+                        // shift amounts at the edges of the word
+                        let i = *[0u16, 1, 7, 8, 248, 254, 255, 256, 257].choose(rng).unwrap();
+                        items.push(Item::Push(if i < 256 { vec![i as u8] } else { vec![(i >> 8) as u8, i as u8] }));
+                        items.push(Item::Op(op));
                     } else {
                         items.push(Item::Op(op));
                         d -= 1;
@@ -476,8 +488,16 @@ pub fn constant_program(rng: &mut StdRng) -> (Vec<u8>, bool) {
                     d -= 2;
                 }
                 11 if d >= 2 => {
-                    items.push(Item::Op(if rng.gen_bool(0.2) { 0x0b } else { 0x1a }));
-                    d -= 1;
+                    let op = if rng.gen_bool(0.2) { 0x0b } else { 0x1a };
+                    if rng.gen_bool(0.5) {
+                        // the index operand at the edges of the word: PUSH i; OP leaves the depth unchanged
+                        let i = *[0u16, 1, 2, 15, 16, 29, 30, 31, 32, 33, 63, 255, 256].choose(rng).unwrap();
+                        items.push(Item::Push(if i < 256 { vec![i as u8] } else { vec![(i >> 8) as u8, i as u8] }));
+                        items.push(Item::Op(op));
+                    } else {
+                        items.push(Item::Op(op));
+                        d -= 1;
+                    }
                 }
                 12 if d < 20 => {
                     items.push(Item::Op(*[0x58u8, 0x38].choose(rng).unwrap()));
@@ -507,6 +527,12 @@ pub fn constant_program(rng: &mut StdRng) -> (Vec<u8>, bool) {
                         vec![Item::Push(vec![3]), Item::Push(vec![slot + 3]), Item::Op(0x03)] // (slot + 3) - 3
                     };
                     if rng.gen_bool(0.5) && d > base {
+                        if rng.gen_bool(0.25) {
+                            // the same value stored twice in a row: both writes belong to the history
+                            items.push(Item::Op(0x80));
+                            items.extend(key.clone());
+                            items.push(Item::Op(0x55));
+                        }
                         items.extend(key);
                         items.push(Item::Op(0x55));
                         d -= 1;
@@ -519,8 +545,21 @@ pub fn constant_program(rng: &mut StdRng) -> (Vec<u8>, bool) {
                 _ => {}
             }
         }
+        // what the block computed is kept where the final state shows it (memory, storage) rather than dropped
         while d > base {
-            items.push(Item::Op(0x50));
+            match rng.gen_range(0..10) {
+                0..=3 => items.extend([Item::Push(vec![32 * rng.gen_range(0u8..8)]), Item::Op(0x52)]),
+                4..=6 => {
+                    let slot = rng.gen_range(0..4u8);
+                    if key_forms[slot as usize] {
+                        items.extend([Item::Push(vec![3]), Item::Push(vec![slot + 3]), Item::Op(0x03)]);
+                    } else {
+                        items.push(Item::Push(vec![slot]));
+                    }
+                    items.push(Item::Op(0x55));
+                }
+                _ => items.push(Item::Op(0x50)),
+            }
             d -= 1;
         }
         while d < base {
@@ -640,10 +679,10 @@ fn put_path_records(w: &mut Ndjson, code: &[u8], fam: &str) -> (usize, usize) {
         }
         nodes_total += it.nodes.len();
         drop(keep_alive);
-        let mut tags = tags;
-        if path.iter().any(|pc| code[*pc as usize] == 0x0b) {
-            tags.push("signextend");
-        }
+        // where on this path an instruction ran into one of the known findings: the nodes built there
+        // (and everything computed from them) are excused, nothing else on the path is
+        let taint: Vec<J> = tags.iter().map(|(pc, t)| json!([pc, t])).collect();
+        let mut tags: Vec<&'static str> = Vec::new();
         // the known finding about structural keys applies to programs that themselves address one slot
         // through two different key expressions (the generator says which those are)
         if fam == "constant-program/key-alias" {
@@ -652,10 +691,85 @@ fn put_path_records(w: &mut Ndjson, code: &[u8], fam: &str) -> (usize, usize) {
         tags.sort_unstable();
         tags.dedup();
         w.put(&json!({"ev": "path", "family": fam, "hex": hex::encode(code), "code": code, "tid": tid,
-                      "steps": steps, "nodes": it.nodes, "stack": stack, "memory": memory, "storage": storage, "tags": tags}));
+                      "steps": steps, "nodes": it.nodes, "stack": stack, "memory": memory, "storage": storage, "tags": tags, "taint": taint}));
         paths += 1;
     }
     (paths, nodes_total)
+}
+
+/// The operator grid: every ALU opcode of the fragment on operands from the boundary sets of their roles
+/// (values; byte / bit indices for BYTE, SIGNEXTEND and the shifts; moduli for ADDMOD / MULMOD), one cell
+/// `PUSH.. OP PUSH slot SSTORE` each, so that every result is part of the final state.
+pub fn grid_cells() -> Vec<Vec<Item>> {
+    let one = U256::ONE;
+    let values: Vec<U256> = vec![U256::ZERO, one, U256::from(0x1234u32), U256::from(0x80u32), U256::from(0xffu32), U256::from(0x7fffu32),
+                                 one << 255, U256::MAX, U256::MAX - one, (one << 255) - one, (one << 128) + U256::from(0x81u32),
+                                 U256::from_be_bytes([0xa5; 32])];
+    let indices: Vec<U256> = vec![U256::ZERO, one, U256::from(2u32), U256::from(7u32), U256::from(8u32), U256::from(15u32), U256::from(30u32),
+                                  U256::from(31u32), U256::from(32u32), U256::from(33u32), U256::from(248u32), U256::from(255u32),
+                                  U256::from(256u32), U256::from(257u32), one << 64, one << 253, one << 255, U256::MAX];
+    let push = |w: &U256| {
+        let be = w.to_be_bytes();
+        let first = be.iter().position(|b| *b != 0).unwrap_or(31);
+        Item::Push(be[first..].to_vec())
+    };
+    let mut cells = Vec::new();
+    // binary operators: a is the top of the stack
+    for op in [0x01u8, 0x02, 0x03, 0x04, 0x05, 0x06, 0x07, 0x10, 0x11, 0x12, 0x13, 0x14, 0x16, 0x17, 0x18] {
+        for a in &values {
+            for b in &values {
+                cells.push(vec![push(b), push(a), Item::Op(op)]);
+            }
+        }
+    }
+    // EXP with small exponents (the acceptor recomputes it)
+    for a in &values {
+        for e in [0u32, 1, 2, 3, 8, 31, 32, 255, 256] {
+            cells.push(vec![push(&U256::from(e)), push(a), Item::Op(0x0a)]);
+        }
+    }
+    // index first, value second
+    for op in [0x0bu8, 0x1a, 0x1b, 0x1c, 0x1d] {
+        for i in &indices {
+            for v in &values {
+                cells.push(vec![push(v), push(i), Item::Op(op)]);
+            }
+        }
+    }
+    for op in [0x15u8, 0x19] {
+        for a in &values {
+            cells.push(vec![push(a), Item::Op(op)]);
+        }
+    }
+    for op in [0x08u8, 0x09] {
+        for a in &values {
+            for b in &values {
+                for n in [U256::ZERO, one, U256::from(3u32), U256::from(0x100u32), one << 255, U256::MAX] {
+                    cells.push(vec![push(&n), push(b), push(a), Item::Op(op)]);
+                }
+            }
+        }
+    }
+    cells
+}
+
+fn grid_programs(rng: &mut StdRng, fraction: usize) -> Vec<Vec<u8>> {
+    let mut cells = grid_cells();
+    cells.shuffle(rng);
+    let take = cells.len() / fraction.max(1);
+    cells.truncate(take);
+    cells
+        .chunks(12)
+        .map(|chunk| {
+            let mut items = Vec::new();
+            for (k, cell) in chunk.iter().enumerate() {
+                items.extend(cell.iter().cloned());
+                items.extend([Item::Push(vec![k as u8]), Item::Op(0x55)]);
+            }
+            items.push(Item::Op(0x00));
+            assemble(&items)
+        })
+        .collect()
 }
 
 pub fn trace(o: &Opts) -> R<()> {
@@ -678,11 +792,18 @@ pub fn trace(o: &Opts) -> R<()> {
         paths += p;
         nodes += nn;
     }
+    let grid = grid_programs(&mut rng, o.num("grid-fraction", 3));
+    let n_grid = grid.len();
+    for (i, code) in grid.iter().enumerate() {
+        let (p, nn) = put_path_records(&mut ws[i % shards], code, "operator-grid");
+        paths += p;
+        nodes += nn;
+    }
     let mut recs = 0;
     for w in ws {
         recs += w.finish();
     }
-    println!("{}", json!({"programs": n, "paths": paths, "nodes": nodes, "records": recs}));
+    println!("{}", json!({"programs": n + n_grid, "grid_programs": n_grid, "grid_cells_total": grid_cells().len(), "paths": paths, "nodes": nodes, "records": recs}));
     Ok(())
 }
 
